@@ -32,6 +32,7 @@ type Solver struct {
 	timeoutMS int
 	Errors    int
 	LastErr   string
+	IntMode   bool // integer encoding (mod-2^w made explicit) instead of bit-vectors
 }
 
 func solverArgv(kind string, timeoutMS int) []string {
@@ -115,6 +116,15 @@ func (s *Solver) readAnswer() (string, error) {
 // Check decides the conjunction of asserts. With wantModel and a sat answer
 // the values of all variables occurring in asserts are returned.
 func (s *Solver) Check(asserts []*Term, wantModel bool) (SatResult, Model, string) {
+	if s.IntMode {
+		script, vars, err := smtScriptInt(asserts)
+		if err != "" {
+			s.Errors++
+			s.LastErr = err
+			return Unknown, nil, script
+		}
+		return s.CheckScript(script, vars, wantModel)
+	}
 	script, vars := smtScript(asserts)
 	return s.CheckScript(script, vars, wantModel)
 }
@@ -195,6 +205,9 @@ func parseModel(reply string, m Model) {
 			m[name] = u
 		case strings.HasPrefix(v, "#b"):
 			u, _ := strconv.ParseUint(v[2:], 2, 64)
+			m[name] = u
+		case len(v) > 0 && v[0] >= '0' && v[0] <= '9':
+			u, _ := strconv.ParseUint(v, 10, 64)
 			m[name] = u
 		case v == "_" && k+3 < len(toks) && strings.HasPrefix(toks[k+2], "bv"):
 			// (_ bv10 32)
